@@ -374,6 +374,10 @@ func updateUniInfo(ut UnionType, uinfo UnionTypeInfo) {
 	dict.Add(g_uniInfoDic, uniToKey(ut), uinfo)
 }
 
+func hasUniInfo(ut UnionType) bool {
+	return dict.ContainsKey(g_uniInfoDic, uniToKey(ut))
+}
+
 func utCases(ut UnionType) []NameTypePair {
 	ui := lookupUniInfo(ut)
 	return ui.Cases
